@@ -116,7 +116,7 @@ def documented_best_match(branches, V):
     if "%d" % M in texts:
         return "%d" % M
     latest = max([b[1] for b in branches if b[0] != 0], default=-1)
-    if M > latest:
+    if M > latest and "master" in texts:  # the result is always one of the repository's branches ("alternative that is available or None")
         return "master"
     return None
 
